@@ -27,3 +27,19 @@ head["checks"] = checks
 head["not_applicable"] = na
 (V / "MANIFEST.json").write_text(json.dumps(head, indent=1) + "\n")
 print(f"MANIFEST.json: {len(checks)} checks, {len(na)} not_applicable")
+
+# merge known_findings.d/*.json fragments into known_findings.json (single committed list)
+kf = V / "known_findings.json"
+data = json.loads(kf.read_text()) if kf.exists() else {"findings": [], "fixed": []}
+byid = {x["id"]: x for x in data.get("findings", [])}
+fixed = {json.dumps(x, sort_keys=True): x for x in data.get("fixed", [])}
+for f in sorted((V / "known_findings.d").glob("*.json")):
+    d = json.loads(f.read_text())
+    for x in d.get("findings", []):
+        byid[x["id"]] = x
+    for x in d.get("fixed", []):
+        fixed[json.dumps(x, sort_keys=True)] = x
+data["findings"] = sorted(byid.values(), key=lambda x: x["id"])
+data["fixed"] = list(fixed.values())
+kf.write_text(json.dumps(data, indent=1) + "\n")
+print(f"known_findings.json: {len(data['findings'])} findings, {len(data['fixed'])} fixed")
